@@ -10,9 +10,39 @@ extern "C" {
 #ifndef VP_MAXN
 #define VP_MAXN 12
 #endif
+#include <limits>
 typedef long double LD;
-static LD const U_ = 1.1102230246251565e-16L; // 2^-53
-static LD const CSAFE = 4.0L;
+typedef a_real R; // the library's real type: float, double or long double (A_SIZE_REAL)
+static LD const U_ = LD(std::numeric_limits<R>::epsilon()) / 2; // unit roundoff of a_real
+// The residuals are evaluated in long double. For a_real = long double the check's own rounding is of the order of the
+// bound's unit, so the safety constant is raised (observed ratios on the unchanged tree stay below 0.3 of the bound).
+static LD const CSAFE = sizeof(R) > 8 ? 6.0L : 4.0L;
+// type-dependent ranges: scalings are chosen so that no product of two entries leaves the normal range of a_real
+static int const SC_GLOBAL_NUM = sizeof(R) == 4 ? 3 : (sizeof(R) == 8 ? 30 : 480); // global scale exponent = rd_int(100) * NUM / 10
+static int const SC_LIM = sizeof(R) == 4 ? 5 : (sizeof(R) == 8 ? 40 : 600);       // per-row / per-column exponent limit
+static LD const FLOOR_ = sizeof(R) == 4 ? 1e-40L : (sizeof(R) == 8 ? 1e-300L : 1e-4900L);
+static LD const DET_HUGE = sizeof(R) == 4 ? 1e36L : (sizeof(R) == 8 ? 1e300L : 1e4900L);
+static LD const DET_TINY = sizeof(R) == 4 ? 1e-34L : (sizeof(R) == 8 ? 1e-290L : 1e-4890L);
+static R const BIGV = std::numeric_limits<R>::max() / 1024;
+static void hashR(Ctx &cx, R v)
+{
+    int e = 0;
+    LD m = frexpl(LD(v), &e);
+    cx.hash.addd(double(m));
+    cx.hash.add(unsigned(e));
+}
+// the determinant routines form a running product: every prefix must stay representable for the final value to be meaningful
+static bool prefixes_ok(std::vector<LD> const &f, LD start, bool square_at_end)
+{
+    LD r = start;
+    for (LD v : f)
+    {
+        r *= v;
+        if (!(fabsl(r) < DET_HUGE && fabsl(r) > DET_TINY)) { return false; }
+    }
+    if (square_at_end) { r *= r; if (!(fabsl(r) < DET_HUGE && fabsl(r) > DET_TINY)) { return false; } }
+    return true;
+}
 static LD gam(unsigned k) { return (k * U_) / (1 - k * U_); }
 
 enum { L_PLU, L_LDL, L_LLT, L_ROW_EXCHANGE, L_SINGULAR_CLASS, L_MUST_SUCCEED, L_BAD_SCALE, L_NEAR_SINGULAR, L_GLOBAL_SCALE, L_LAST_STEP_SWAP, L_HILBERT, L_N_GE_8, L_FAILED_OK, L_PERM_NOT_INVOLUTION, L_DET_UNREPRESENTABLE, L_LARGE_ORDER };
@@ -26,8 +56,8 @@ extern "C" vp_info const *vp_get_info(void) { return &info; }
 
 struct Blk
 {
-    double *p;
-    explicit Blk(size_t n) { p = (double *)malloc(sizeof(double) * (n ? n : 1)); for (size_t i = 0; i < n; ++i) { p[i] = -7.77e+200; } }
+    R *p;
+    explicit Blk(size_t n) { p = (R *)malloc(sizeof(R) * (n ? n : 1)); for (size_t i = 0; i < n; ++i) { p[i] = -BIGV * R(0.777); } }
     ~Blk() { free(p); }
     Blk(Blk const &) = delete;
 };
@@ -40,57 +70,57 @@ static uint32_t pat_next()
     g_state = g_state * 6364136223846793005ull + 1442695040888963407ull;
     return uint32_t(g_state >> 33);
 }
-static double rd_real(Tape &t, int emin, int emax)
+static R rd_real(Tape &t, int emin, int emax)
 {
     uint32_t w = g_pat ? pat_next() * 2u + 1u : t.u32();
     int e = emin + int((g_pat ? pat_next() : t.u8()) % unsigned(emax - emin + 1));
-    return std::ldexp(double(int32_t(w | 1)) / 2147483648.0, e);
+    return R(std::ldexp(double(int32_t(w | 1)) / 2147483648.0, e));
 }
 static int rd_int(Tape &t, int lim) { return int((g_pat ? pat_next() : t.u8()) % unsigned(2 * lim + 1)) - lim; }
 
-static bool finite_all(double const *p, size_t n)
+static bool finite_all(R const *p, size_t n)
 {
     for (size_t i = 0; i < n; ++i) { if (!std::isfinite(p[i])) { return false; } }
     return true;
 }
 
 // general matrix classes; returns class id. Fills M (n x n).
-static int gen_general(Tape &t, Ctx &cx, unsigned n, std::vector<double> &M, int &expect /* 0 none, 1 must fail, 2 must succeed */)
+static int gen_general(Tape &t, Ctx &cx, unsigned n, std::vector<R> &M, int &expect /* 0 none, 1 must fail, 2 must succeed */)
 {
     int cls = t.u8() % 12;
     expect = 0;
-    M.assign(size_t(n) * n, 0.0);
-    auto at = [&](unsigned i, unsigned j) -> double & { return M[size_t(i) * n + j]; };
+    M.assign(size_t(n) * n, R(0));
+    auto at = [&](unsigned i, unsigned j) -> R & { return M[size_t(i) * n + j]; };
     switch (cls)
     {
     case 0:
-        for (auto &v : M) { v = rd_int(t, 9); }
+        for (auto &v : M) { v = R(rd_int(t, 9)); }
         break;
     case 1:
         for (auto &v : M) { v = rd_real(t, -3, 3); }
         break;
     case 2: {
         std::vector<int> rs(n), cs(n);
-        int lim = int(320 / (n + 1));
-        if (lim > 40) { lim = 40; }
+        int lim = int(8 * SC_LIM / (n + 1));
+        if (lim > SC_LIM) { lim = SC_LIM; }
         for (unsigned i = 0; i < n; ++i) { rs[i] = rd_int(t, lim); cs[i] = rd_int(t, lim); }
         for (unsigned i = 0; i < n; ++i) { for (unsigned j = 0; j < n; ++j) { at(i, j) = std::ldexp(rd_real(t, -1, 1), rs[i] + cs[j]); } }
         cx.label(L_BAD_SCALE);
         break; }
     case 3: {
-        std::vector<double> u(n), v(n);
-        for (unsigned i = 0; i < n; ++i) { u[i] = rd_int(t, 5) + 0.5; v[i] = rd_int(t, 5) + 0.25; }
+        std::vector<R> u(n), v(n);
+        for (unsigned i = 0; i < n; ++i) { u[i] = R(rd_int(t, 5) + 0.5); v[i] = R(rd_int(t, 5) + 0.25); }
         for (unsigned i = 0; i < n; ++i) { for (unsigned j = 0; j < n; ++j) { at(i, j) = u[i] * v[j] + std::ldexp(rd_real(t, 0, 0), -30); } }
         cx.label(L_NEAR_SINGULAR);
         break; }
     case 4: {
         // unit-ish lower structure whose (n-2,n-2) pivot vanishes until the last row is exchanged in
-        for (unsigned i = 0; i < n; ++i) { for (unsigned j = 0; j < n; ++j) { at(i, j) = i == j ? 4 + rd_int(t, 2) : (j > i ? rd_int(t, 3) : 0); } }
+        for (unsigned i = 0; i < n; ++i) { for (unsigned j = 0; j < n; ++j) { at(i, j) = R(i == j ? 4 + rd_int(t, 2) : (j > i ? rd_int(t, 3) : 0)); } }
         if (n >= 2)
         {
             at(n - 2, n - 2) = 0;
-            at(n - 1, n - 2) = 3 + (t.u8() % 3);
-            at(n - 1, n - 1) = rd_int(t, 3);
+            at(n - 1, n - 2) = R(3 + (t.u8() % 3));
+            at(n - 1, n - 1) = R(rd_int(t, 3));
             if (at(n - 2, n - 1) == 0) { at(n - 2, n - 1) = 1; }
         }
         cx.label(L_LAST_STEP_SWAP);
@@ -100,12 +130,12 @@ static int gen_general(Tape &t, Ctx &cx, unsigned n, std::vector<double> &M, int
         bool vander = t.coin();
         for (unsigned i = 0; i < n; ++i)
         {
-            for (unsigned j = 0; j < n; ++j) { at(i, j) = vander ? std::pow(0.5 + 0.25 * i + a * 0.1, double(j)) : 1.0 / (double(i + j + 1) + a); }
+            for (unsigned j = 0; j < n; ++j) { at(i, j) = R(vander ? std::pow(0.5 + 0.25 * i + a * 0.1, double(j)) : 1.0 / (double(i + j + 1) + a)); }
         }
         cx.label(L_HILBERT);
         break; }
     case 6: {
-        int s = rd_int(t, 100) * 3;
+        int s = rd_int(t, 100) * SC_GLOBAL_NUM / 10;
         for (auto &v : M) { v = std::ldexp(rd_real(t, -2, 2), s); }
         cx.label(L_GLOBAL_SCALE);
         break; }
@@ -114,15 +144,15 @@ static int gen_general(Tape &t, Ctx &cx, unsigned n, std::vector<double> &M, int
         for (unsigned i = 0; i < n; ++i)
         {
             int s = 0;
-            for (unsigned j = 0; j < n; ++j) { if (i != j) { int v = rd_int(t, 5); at(i, j) = v; s += v < 0 ? -v : v; } }
-            at(i, i) = (t.coin() ? 1 : -1) * (s + 1 + int(t.u8() % 4));
+            for (unsigned j = 0; j < n; ++j) { if (i != j) { int v = rd_int(t, 5); at(i, j) = R(v); s += v < 0 ? -v : v; } }
+            at(i, i) = R((t.coin() ? 1 : -1) * (s + 1 + int(t.u8() % 4)));
         }
         expect = 2;
         cx.label(L_MUST_SUCCEED);
         break; }
     case 8: {
         bool reals = t.coin();
-        for (auto &v : M) { v = reals ? rd_real(t, -3, 3) : double(rd_int(t, 9)); }
+        for (auto &v : M) { v = reals ? rd_real(t, -3, 3) : R(rd_int(t, 9)); }
         unsigned c = t.u8() % n;
         for (unsigned i = 0; i < n; ++i) { at(i, c) = 0; }
         expect = 1;
@@ -130,7 +160,7 @@ static int gen_general(Tape &t, Ctx &cx, unsigned n, std::vector<double> &M, int
         break; }
     case 9: {
         bool reals = t.coin();
-        for (auto &v : M) { v = reals ? rd_real(t, -3, 3) : double(rd_int(t, 9)); }
+        for (auto &v : M) { v = reals ? rd_real(t, -3, 3) : R(rd_int(t, 9)); }
         if (n >= 2)
         {
             unsigned a = t.u8() % n, b = t.u8() % n;
@@ -141,7 +171,7 @@ static int gen_general(Tape &t, Ctx &cx, unsigned n, std::vector<double> &M, int
         }
         break; }
     case 10: {
-        for (auto &v : M) { v = rd_int(t, 9); }
+        for (auto &v : M) { v = R(rd_int(t, 9)); }
         unsigned r = t.u8() % n;
         for (unsigned j = 0; j < n; ++j) { at(r, j) = 0; }
         expect = 1;
@@ -157,12 +187,12 @@ static int gen_general(Tape &t, Ctx &cx, unsigned n, std::vector<double> &M, int
 // ---------------------------------------------------------------------------------------
 static void check_plu(Tape &t, Ctx &cx, unsigned n)
 {
-    std::vector<double> A0;
+    std::vector<R> A0;
     int expect;
     int cls = gen_general(t, cx, n, A0, expect);
-    for (double v : A0) { cx.hash.addd(v); }
+    for (R v : A0) { hashR(cx, v); }
     Blk A(size_t(n) * n);
-    memcpy(A.p, A0.data(), sizeof(double) * n * n);
+    memcpy(A.p, A0.data(), sizeof(R) * n * n);
     a_uint *p = (a_uint *)malloc(sizeof(a_uint) * n);
     struct FreeP { a_uint *p; ~FreeP() { free(p); } } fp{p};
     int sign = 0;
@@ -213,11 +243,11 @@ static void check_plu(Tape &t, Ctx &cx, unsigned n)
     {
         for (unsigned j = 0; j < n; ++j)
         {
-            double v = A.p[size_t(i) * n + j];
+            R v = A.p[size_t(i) * n + j];
             if (j < i)
             {
                 L[size_t(i) * n + j] = v;
-                VP_CHECK(cx, std::fabs(v) <= 1.0, "plu:multiplier_gt_1", "multiplier L(%u,%u) = %.17g exceeds 1 under partial pivoting", i, j, v);
+                VP_CHECK(cx, fabsl(LD(v)) <= 1.0L, "plu:multiplier_gt_1", "multiplier L(%u,%u) = %.21Lg exceeds 1 under partial pivoting", i, j, LD(v));
             }
             else { Um[size_t(i) * n + j] = v; }
         }
@@ -236,7 +266,7 @@ static void check_plu(Tape &t, Ctx &cx, unsigned n)
                 sa += fabsl(v);
             }
             LD pa = A0[size_t(p[i]) * n + j];
-            LD bound = CSAFE * gam(n) * sa + 1e-300L;
+            LD bound = CSAFE * gam(n) * sa + FLOOR_;
             LD err = fabsl(pa - s);
             cx.metric(0, double(err / bound));
             if (!(err <= bound)) { cx.fail("plu:reconstruction", "|PA - LU|(%u,%u) = %.3Lg exceeds %.3Lg (n=%u, class %d)", i, j, err, bound, n, cls); }
@@ -253,10 +283,10 @@ static void check_plu(Tape &t, Ctx &cx, unsigned n)
         {
             for (unsigned j = 0; j < n; ++j)
             {
-                VP_CHECK(cx, P.p[size_t(i) * n + j] == (p[i] == j ? 1.0 : 0.0), "plu:P", "plu_P(%u,%u) wrong", i, j);
-                VP_CHECK(cx, Pt.p[size_t(j) * n + i] == (p[i] == j ? 1.0 : 0.0), "plu:P_", "plu_P_ is not the transpose of P at (%u,%u)", j, i);
-                VP_CHECK(cx, Lm.p[size_t(i) * n + j] == double(L[size_t(i) * n + j]), "plu:L", "plu_L(%u,%u) wrong", i, j);
-                VP_CHECK(cx, Ux.p[size_t(i) * n + j] == double(Um[size_t(i) * n + j]), "plu:U", "plu_U(%u,%u) wrong", i, j);
+                VP_CHECK(cx, P.p[size_t(i) * n + j] == R(p[i] == j ? 1 : 0), "plu:P", "plu_P(%u,%u) wrong", i, j);
+                VP_CHECK(cx, Pt.p[size_t(j) * n + i] == R(p[i] == j ? 1 : 0), "plu:P_", "plu_P_ is not the transpose of P at (%u,%u)", j, i);
+                VP_CHECK(cx, Lm.p[size_t(i) * n + j] == R(L[size_t(i) * n + j]), "plu:L", "plu_L(%u,%u) wrong", i, j);
+                VP_CHECK(cx, Ux.p[size_t(i) * n + j] == R(Um[size_t(i) * n + j]), "plu:U", "plu_U(%u,%u) wrong", i, j);
             }
         }
     }
@@ -271,7 +301,7 @@ static void check_plu(Tape &t, Ctx &cx, unsigned n)
             W[size_t(p[i]) * n + j] = sa;
         }
     }
-    auto resid = [&](double const *x, std::vector<double> const &b, char const *sig, char const *what, unsigned mi) {
+    auto resid = [&](R const *x, std::vector<R> const &b, char const *sig, char const *what, unsigned mi) {
         for (unsigned i = 0; i < n; ++i)
         {
             LD s = b[i], w = 0;
@@ -280,17 +310,17 @@ static void check_plu(Tape &t, Ctx &cx, unsigned n)
                 s -= LD(A0[size_t(i) * n + j]) * x[j];
                 w += W[size_t(i) * n + j] * fabsl(x[j]);
             }
-            LD bound = CSAFE * gam(3 * n) * w + 1e-300L;
+            LD bound = CSAFE * gam(3 * n) * w + FLOOR_;
             cx.metric(mi, double(fabsl(s) / bound));
             if (!(fabsl(s) <= bound)) { cx.fail(sig, "%s: |b - A x|(%u) = %.3Lg exceeds %.3Lg (n=%u, class %d)", what, i, fabsl(s), bound, n, cls); }
         }
     };
     {
-        std::vector<double> b(n);
+        std::vector<R> b(n);
         bool ints = t.coin();
-        for (unsigned i = 0; i < n; ++i) { b[i] = ints ? double(rd_int(t, 20)) : rd_real(t, -4, 4); }
+        for (unsigned i = 0; i < n; ++i) { b[i] = ints ? R(rd_int(t, 20)) : rd_real(t, -4, 4); }
         Blk bb(n), x(n), pb(n);
-        memcpy(bb.p, b.data(), sizeof(double) * n);
+        memcpy(bb.p, b.data(), sizeof(R) * n);
         a_real_plu_apply(n, p, bb.p, pb.p);
         for (unsigned i = 0; i < n; ++i) { VP_CHECK(cx, pb.p[i] == b[p[i]], "plu:apply", "plu_apply(%u) is not b[p[%u]]", i, i); }
         a_real_plu_solve(n, A.p, p, bb.p, x.p);
@@ -303,10 +333,10 @@ static void check_plu(Tape &t, Ctx &cx, unsigned n)
         a_real_plu_inv_(n, A.p, p, I2.p);
         if (finite_all(I1.p, size_t(n) * n) && finite_all(I2.p, size_t(n) * n))
         {
-            std::vector<double> col(n), e(n);
+            std::vector<R> col(n), e(n);
             for (unsigned j = 0; j < n; ++j)
             {
-                for (unsigned i = 0; i < n; ++i) { e[i] = i == j ? 1.0 : 0.0; }
+                for (unsigned i = 0; i < n; ++i) { e[i] = R(i == j ? 1 : 0); }
                 for (unsigned i = 0; i < n; ++i) { col[i] = I1.p[size_t(i) * n + j]; }
                 resid(col.data(), e, "plu:inv_residual", "plu_inv column", 2);
                 for (unsigned i = 0; i < n; ++i) { col[i] = I2.p[size_t(i) * n + j]; }
@@ -319,29 +349,31 @@ static void check_plu(Tape &t, Ctx &cx, unsigned n)
     {
         LD prod = sign, lsum = 0, labs = 0;
         int sg = sign;
+        std::vector<LD> fac;
         for (unsigned i = 0; i < n; ++i)
         {
             LD d = Um[size_t(i) * n + i];
+            fac.push_back(d);
             prod *= d;
             lsum += logl(fabsl(d));
             labs += fabsl(logl(fabsl(d)));
             if (d < 0) { sg = -sg; }
             if (d == 0) { sg = 0; }
         }
-        double det = a_real_plu_det(n, A.p, sign);
-        double lnd = a_real_plu_lndet(n, A.p);
+        LD det = a_real_plu_det(n, A.p, sign);
+        LD lnd = a_real_plu_lndet(n, A.p);
         int sd = a_real_plu_sgndet(n, A.p, sign);
         VP_CHECK(cx, sd == sg, "plu:sgndet", "plu_sgndet %d, sign of det %d", sd, sg);
         LD lb = CSAFE * (n + 2) * U_ * (labs + 1);
         cx.metric(4, double(fabsl(lnd - lsum) / lb));
-        VP_CHECK(cx, fabsl(lnd - lsum) <= lb, "plu:lndet", "plu_lndet %.17g, sum of log|u_ii| %.17Lg (n=%u)", lnd, lsum, n);
-        if (fabsl(prod) < 1e300L && fabsl(prod) > 1e-290L)
+        VP_CHECK(cx, fabsl(lnd - lsum) <= lb, "plu:lndet", "plu_lndet %.21Lg, sum of log|u_ii| %.21Lg (n=%u)", lnd, lsum, n);
+        if (prefixes_ok(fac, sign, false))
         {
             LD db = CSAFE * gam(n + 1) * fabsl(prod);
             cx.metric(3, double(fabsl(det - prod) / db));
-            VP_CHECK(cx, fabsl(det - prod) <= db, "plu:det", "plu_det %.17g, sign*prod(u_ii) %.17Lg", det, prod);
+            VP_CHECK(cx, fabsl(det - prod) <= db, "plu:det", "plu_det %.21Lg, sign*prod(u_ii) %.21Lg", det, prod);
             // the three agree with one another
-            VP_CHECK(cx, fabsl(LD(sd) * expl(LD(lnd)) - det) <= 1e-9L * fabsl(prod), "plu:det_family_disagree", "sgndet*exp(lndet) = %.12Lg but det = %.12g", LD(sd) * expl(LD(lnd)), det);
+            VP_CHECK(cx, fabsl(LD(sd) * expl(LD(lnd)) - det) <= (1e-9L + 2 * expm1l(lb) + 2 * db / fabsl(prod)) * fabsl(prod), "plu:det_family_disagree", "sgndet*exp(lndet) = %.12Lg but det = %.12Lg", LD(sd) * expl(LD(lnd)), det);
         }
         else { cx.label(L_DET_UNREPRESENTABLE); }
     }
@@ -351,69 +383,69 @@ static void check_plu(Tape &t, Ctx &cx, unsigned n)
 // symmetric input for LDL^T / LL^T. kind 0: LDL, 1: LLT
 static void check_sym(Tape &t, Ctx &cx, unsigned n, int kind)
 {
-    std::vector<double> A0(size_t(n) * n, 0.0);
-    auto at = [&](unsigned i, unsigned j) -> double & { return A0[size_t(i) * n + j]; };
+    std::vector<R> A0(size_t(n) * n, R(0));
+    auto at = [&](unsigned i, unsigned j) -> R & { return A0[size_t(i) * n + j]; };
     int expect = 0;
     int cls = t.u8() % 9;
-    auto sym_from = [&](std::vector<double> const &B) {
+    auto sym_from = [&](std::vector<R> const &B) {
         for (unsigned i = 0; i < n; ++i) { for (unsigned j = 0; j < n; ++j) { at(i, j) = B[size_t(i) * n + j] + B[size_t(j) * n + i]; } }
     };
-    auto bbt = [&](std::vector<double> const &B, double delta) {
+    auto bbt = [&](std::vector<R> const &B, R delta) {
         for (unsigned i = 0; i < n; ++i)
         {
             for (unsigned j = 0; j < n; ++j)
             {
                 LD s = 0;
                 for (unsigned k = 0; k < n; ++k) { s += LD(B[size_t(i) * n + k]) * B[size_t(j) * n + k]; }
-                at(i, j) = double(s) + (i == j ? delta : 0);
+                at(i, j) = R(s) + (i == j ? delta : R(0));
             }
         }
     };
-    std::vector<double> B(size_t(n) * n);
+    std::vector<R> B(size_t(n) * n);
     switch (cls)
     {
     case 0: // SPD integers B B^T + delta I
-        for (auto &v : B) { v = rd_int(t, 4); }
-        bbt(B, 1 + t.u8() % 4);
+        for (auto &v : B) { v = R(rd_int(t, 4)); }
+        bbt(B, R(1 + t.u8() % 4));
         if (kind == 1) { expect = 2; cx.label(L_MUST_SUCCEED); }
         break;
     case 1: // SPD reals
         for (auto &v : B) { v = rd_real(t, -2, 2); }
-        bbt(B, std::ldexp(1.0, -int(t.u8() % 20)));
+        bbt(B, R(std::ldexp(1.0, -int(t.u8() % 20))));
         break;
     case 2: { // scaled SPD: D (B B^T + I) D with D = 2^k
-        for (auto &v : B) { v = rd_int(t, 3); }
-        bbt(B, 1);
+        for (auto &v : B) { v = R(rd_int(t, 3)); }
+        bbt(B, R(1));
         std::vector<int> s(n);
-        int lim = int(200 / (n + 1));
-        if (lim > 40) { lim = 40; }
+        int lim = int(5 * SC_LIM / (n + 1));
+        if (lim > SC_LIM) { lim = SC_LIM; }
         for (unsigned i = 0; i < n; ++i) { s[i] = rd_int(t, lim); }
         for (unsigned i = 0; i < n; ++i) { for (unsigned j = 0; j < n; ++j) { at(i, j) = std::ldexp(at(i, j), s[i] + s[j]); } }
         cx.label(L_BAD_SCALE);
         break; }
     case 3: { // global scale
-        for (auto &v : B) { v = rd_int(t, 3); }
-        bbt(B, 1 + t.u8() % 3);
-        int s = rd_int(t, 100) * 3;
+        for (auto &v : B) { v = R(rd_int(t, 3)); }
+        bbt(B, R(1 + t.u8() % 3));
+        int s = rd_int(t, 100) * SC_GLOBAL_NUM / 10;
         for (auto &v : A0) { v = std::ldexp(v, s); }
         cx.label(L_GLOBAL_SCALE);
         break; }
     case 4: // symmetric indefinite (LDL) / maybe not SPD (LLT may legitimately fail)
-        for (auto &v : B) { v = kind == 0 ? double(rd_int(t, 9)) : rd_real(t, -2, 2); }
+        for (auto &v : B) { v = kind == 0 ? R(rd_int(t, 9)) : rd_real(t, -2, 2); }
         sym_from(B);
         break;
     case 5: { // Hilbert-like SPD
         double a = (t.u8() % 8) * 0.25;
-        for (unsigned i = 0; i < n; ++i) { for (unsigned j = 0; j < n; ++j) { at(i, j) = 1.0 / (double(i + j + 1) + a); } }
+        for (unsigned i = 0; i < n; ++i) { for (unsigned j = 0; j < n; ++j) { at(i, j) = R(1.0 / (double(i + j + 1) + a)); } }
         cx.label(L_HILBERT);
         break; }
     case 6: { // symmetric strictly diagonally dominant integers: must succeed
-        for (unsigned i = 0; i < n; ++i) { for (unsigned j = 0; j < i; ++j) { at(i, j) = at(j, i) = rd_int(t, 4); } }
+        for (unsigned i = 0; i < n; ++i) { for (unsigned j = 0; j < i; ++j) { at(i, j) = at(j, i) = R(rd_int(t, 4)); } }
         for (unsigned i = 0; i < n; ++i)
         {
             int s = 0;
-            for (unsigned j = 0; j < n; ++j) { if (i != j) { s += int(std::fabs(at(i, j))); } }
-            double d = s + 1 + int(t.u8() % 3);
+            for (unsigned j = 0; j < n; ++j) { if (i != j) { s += int(fabsl(LD(at(i, j)))); } }
+            R d = R(s + 1 + int(t.u8() % 3));
             at(i, i) = (kind == 0 && t.coin()) ? -d : d;
         }
         expect = 2;
@@ -447,25 +479,25 @@ static void check_sym(Tape &t, Ctx &cx, unsigned n, int kind)
             {
                 LD s = 0;
                 for (unsigned k = 0; k < n; ++k) { s += Lm[size_t(i) * n + k] * (kind == 0 ? D[k] : 1) * Lm[size_t(j) * n + k]; }
-                at(i, j) = double(s);
+                at(i, j) = R(s);
             }
         }
         if (negative)
         {
             // pivot z becomes l_zz^2 - m <= 0 exactly
             LD lzz = Lm[size_t(z) * n + z];
-            at(z, z) -= double(lzz * lzz + int(t.u8() % 3));
+            at(z, z) -= R(lzz * lzz + int(t.u8() % 3));
         }
         expect = 1;
         cx.label(L_SINGULAR_CLASS);
         break; }
     }
-    for (double v : A0) { cx.hash.addd(v); }
+    for (R v : A0) { hashR(cx, v); }
     Blk A(size_t(n) * n);
-    memcpy(A.p, A0.data(), sizeof(double) * n * n);
+    memcpy(A.p, A0.data(), sizeof(R) * n * n);
     // the routines read only the lower triangle: poison the strict upper triangle of the working copy
     bool poison = t.coin();
-    if (poison) { for (unsigned i = 0; i < n; ++i) { for (unsigned j = i + 1; j < n; ++j) { A.p[size_t(i) * n + j] = 1e+250 * (double(i) + 1); } } }
+    if (poison) { for (unsigned i = 0; i < n; ++i) { for (unsigned j = i + 1; j < n; ++j) { A.p[size_t(i) * n + j] = BIGV * R((i % 7) + 1); } } }
     cx.log("%s n=%u class %d expect %d\n", kind ? "llt" : "ldl", n, cls, expect);
     int rc = kind ? a_real_llt(n, A.p) : a_real_ldl(n, A.p);
     cx.label(kind ? L_LLT : L_LDL);
@@ -492,7 +524,7 @@ static void check_sym(Tape &t, Ctx &cx, unsigned n, int kind)
         else
         {
             L[size_t(i) * n + i] = A.p[size_t(i) * n + i];
-            VP_CHECK(cx, A.p[size_t(i) * n + i] > 0, "llt:diagonal_not_positive", "Cholesky factor has diagonal entry %.17g at %u", A.p[size_t(i) * n + i], i);
+            VP_CHECK(cx, A.p[size_t(i) * n + i] > 0, "llt:diagonal_not_positive", "Cholesky factor has diagonal entry %.21Lg at %u", LD(A.p[size_t(i) * n + i]), i);
         }
     }
     if (n >= 4 && cls != 0) { cx.rep->nontrivial = true; }
@@ -511,7 +543,7 @@ static void check_sym(Tape &t, Ctx &cx, unsigned n, int kind)
             }
             W[size_t(i) * n + j] = sa;
             if (j > i) { continue; }
-            LD bound = CSAFE * gam(kind ? n + 1 : 2 * n) * sa + 1e-300L;
+            LD bound = CSAFE * gam(kind ? n + 1 : 2 * n) * sa + FLOOR_;
             LD err = fabsl(LD(A0[size_t(i) * n + j]) - s);
             cx.metric(0, double(err / bound));
             if (!(err <= bound)) { cx.fail(kind ? "llt:reconstruction" : "ldl:reconstruction", "|A - %s|(%u,%u) = %.3Lg exceeds %.3Lg (n=%u, class %d)", kind ? "LL^T" : "LDL^T", i, j, err, bound, n, cls); }
@@ -524,16 +556,16 @@ static void check_sym(Tape &t, Ctx &cx, unsigned n, int kind)
         {
             a_real_ldl_L(n, A.p, Lx.p);
             a_real_ldl_D(n, A.p, dx.p);
-            for (unsigned i = 0; i < n; ++i) { VP_CHECK(cx, dx.p[i] == double(D[i]), "ldl:D", "ldl_D(%u) wrong", i); }
+            for (unsigned i = 0; i < n; ++i) { VP_CHECK(cx, dx.p[i] == R(D[i]), "ldl:D", "ldl_D(%u) wrong", i); }
         }
         else { a_real_llt_L(n, A.p, Lx.p); }
         for (unsigned i = 0; i < n; ++i)
         {
-            for (unsigned j = 0; j < n; ++j) { VP_CHECK(cx, Lx.p[size_t(i) * n + j] == double(L[size_t(i) * n + j]), kind ? "llt:L" : "ldl:L", "%s_L(%u,%u) wrong", nm, i, j); }
+            for (unsigned j = 0; j < n; ++j) { VP_CHECK(cx, Lx.p[size_t(i) * n + j] == R(L[size_t(i) * n + j]), kind ? "llt:L" : "ldl:L", "%s_L(%u,%u) wrong", nm, i, j); }
         }
     }
     // symmetric full matrix for residuals (the input is symmetric by construction)
-    auto resid = [&](double const *x, std::vector<double> const &b, char const *sig, char const *what, unsigned mi) {
+    auto resid = [&](R const *x, std::vector<R> const &b, char const *sig, char const *what, unsigned mi) {
         for (unsigned i = 0; i < n; ++i)
         {
             LD s = b[i], w = 0;
@@ -542,17 +574,17 @@ static void check_sym(Tape &t, Ctx &cx, unsigned n, int kind)
                 s -= LD(A0[size_t(i) * n + j]) * x[j];
                 w += W[size_t(i) * n + j] * fabsl(x[j]);
             }
-            LD bound = CSAFE * gam(3 * n + 2) * w + 1e-300L;
+            LD bound = CSAFE * gam(3 * n + 2) * w + FLOOR_;
             cx.metric(mi, double(fabsl(s) / bound));
             if (!(fabsl(s) <= bound)) { cx.fail(sig, "%s: |b - A x|(%u) = %.3Lg exceeds %.3Lg (n=%u, class %d)", what, i, fabsl(s), bound, n, cls); }
         }
     };
     {
-        std::vector<double> b(n);
+        std::vector<R> b(n);
         bool ints = t.coin();
-        for (unsigned i = 0; i < n; ++i) { b[i] = ints ? double(rd_int(t, 20)) : rd_real(t, -4, 4); }
+        for (unsigned i = 0; i < n; ++i) { b[i] = ints ? R(rd_int(t, 20)) : rd_real(t, -4, 4); }
         Blk x(n);
-        memcpy(x.p, b.data(), sizeof(double) * n);
+        memcpy(x.p, b.data(), sizeof(R) * n);
         kind ? a_real_llt_solve(n, A.p, x.p) : a_real_ldl_solve(n, A.p, x.p);
         if (finite_all(x.p, n)) { resid(x.p, b, kind ? "llt:solve_residual" : "ldl:solve_residual", kind ? "llt_solve" : "ldl_solve", 1); }
         else { ++cx.rep->excluded; }
@@ -563,10 +595,10 @@ static void check_sym(Tape &t, Ctx &cx, unsigned n, int kind)
         else { a_real_ldl_inv(n, A.p, tmp.p, I1.p); a_real_ldl_inv_(n, A.p, I2.p); }
         if (finite_all(I1.p, size_t(n) * n) && finite_all(I2.p, size_t(n) * n))
         {
-            std::vector<double> col(n), e(n);
+            std::vector<R> col(n), e(n);
             for (unsigned j = 0; j < n; ++j)
             {
-                for (unsigned i = 0; i < n; ++i) { e[i] = i == j ? 1.0 : 0.0; }
+                for (unsigned i = 0; i < n; ++i) { e[i] = R(i == j ? 1 : 0); }
                 for (unsigned i = 0; i < n; ++i) { col[i] = I1.p[size_t(i) * n + j]; }
                 resid(col.data(), e, kind ? "llt:inv_residual" : "ldl:inv_residual", "inv column", 2);
                 for (unsigned i = 0; i < n; ++i) { col[i] = I2.p[size_t(i) * n + j]; }
@@ -578,33 +610,34 @@ static void check_sym(Tape &t, Ctx &cx, unsigned n, int kind)
     {
         LD prod = 1, lsum = 0, labs = 0;
         int sg = 1;
+        std::vector<LD> fac;
         for (unsigned i = 0; i < n; ++i)
         {
             LD d = kind ? L[size_t(i) * n + i] * L[size_t(i) * n + i] : D[i];
+            fac.push_back(kind ? L[size_t(i) * n + i] : D[i]);
             prod *= d;
             LD lg = kind ? 2 * logl(L[size_t(i) * n + i]) : logl(fabsl(d));
             lsum += lg;
             labs += fabsl(lg);
             if (d < 0) { sg = -sg; }
         }
-        double det = kind ? a_real_llt_det(n, A.p) : a_real_ldl_det(n, A.p);
-        double lnd = kind ? a_real_llt_lndet(n, A.p) : a_real_ldl_lndet(n, A.p);
+        LD det = kind ? a_real_llt_det(n, A.p) : a_real_ldl_det(n, A.p);
+        LD lnd = kind ? a_real_llt_lndet(n, A.p) : a_real_ldl_lndet(n, A.p);
         LD lb = CSAFE * (n + 2) * U_ * (labs + 1);
         cx.metric(4, double(fabsl(lnd - lsum) / lb));
-        VP_CHECK(cx, fabsl(lnd - lsum) <= lb, kind ? "llt:lndet" : "ldl:lndet", "%s_lndet %.17g, reference %.17Lg (n=%u)", nm, lnd, lsum, n);
+        VP_CHECK(cx, fabsl(lnd - lsum) <= lb, kind ? "llt:lndet" : "ldl:lndet", "%s_lndet %.21Lg, reference %.21Lg (n=%u)", nm, lnd, lsum, n);
         int sd = sg;
         if (kind == 0)
         {
             sd = a_real_ldl_sgndet(n, A.p);
             VP_CHECK(cx, sd == sg, "ldl:sgndet", "ldl_sgndet %d, sign of det %d", sd, sg);
         }
-        // keep the intermediate product of the Cholesky diagonal representable as well
-        if (fabsl(prod) < 1e300L && fabsl(prod) > 1e-290L)
+                if (prefixes_ok(fac, 1, kind == 1))
         {
             LD db = CSAFE * gam(2 * n + 2) * fabsl(prod);
             cx.metric(3, double(fabsl(det - prod) / db));
-            VP_CHECK(cx, fabsl(det - prod) <= db, kind ? "llt:det" : "ldl:det", "%s_det %.17g, product of pivots %.17Lg", nm, det, prod);
-            VP_CHECK(cx, fabsl(LD(sd) * expl(LD(lnd)) - det) <= 1e-9L * fabsl(prod), kind ? "llt:det_family_disagree" : "ldl:det_family_disagree", "sgndet*exp(lndet) = %.12Lg but det = %.12g", LD(sd) * expl(LD(lnd)), det);
+            VP_CHECK(cx, fabsl(det - prod) <= db, kind ? "llt:det" : "ldl:det", "%s_det %.21Lg, product of pivots %.21Lg", nm, det, prod);
+            VP_CHECK(cx, fabsl(LD(sd) * expl(LD(lnd)) - det) <= (1e-9L + 2 * expm1l(lb) + 2 * db / fabsl(prod)) * fabsl(prod), kind ? "llt:det_family_disagree" : "ldl:det_family_disagree", "sgndet*exp(lndet) = %.12Lg but det = %.12Lg", LD(sd) * expl(LD(lnd)), det);
         }
         else { cx.label(L_DET_UNREPRESENTABLE); }
     }
